@@ -151,11 +151,50 @@ type ReplayCase struct {
 	Pkg     string            `json:"pkg"`
 	Expect  string            `json:"expect"` // what the engine saw: violation message or "pass"
 	Kind    string            `json:"kind"`
+	GOOS    string            `json:"goos,omitempty"`
 }
 
 type ReplayFile struct {
 	Property string       `json:"property"`
 	Cases    []ReplayCase `json:"cases"`
+	Build    *BuildReplay `json:"build,omitempty"` // replay = "does /repo build for this platform"
+}
+
+type BuildReplay struct {
+	GOOS   string `json:"goos"`
+	GOARCH string `json:"goarch"`
+}
+
+func writeBuildReplay(prop, goos, goarch string, errs []string) (string, error) {
+	dir := filepath.Join(verifDir, "replays", prop, "build-"+goos+"-"+goarch)
+	if err := os.MkdirAll(dir, 0o755); err != nil {
+		return "", err
+	}
+	rf := ReplayFile{Property: prop, Build: &BuildReplay{goos, goarch}}
+	b, _ := json.MarshalIndent(rf, "", " ")
+	if err := os.WriteFile(filepath.Join(dir, "inputs.json"), b, 0o644); err != nil {
+		return "", err
+	}
+	os.WriteFile(filepath.Join(dir, "cmd.txt"), []byte(fmt.Sprintf("cd /repo && GOOS=%s GOARCH=%s go build ./...\n", goos, goarch)), 0o644)
+	os.WriteFile(filepath.Join(dir, "type-errors.txt"), []byte(strings.Join(errs, "\n")+"\n"), 0o644)
+	return dir, nil
+}
+
+func runBuildReplay(dir string, br *BuildReplay) *ReplayOutcome {
+	out := &ReplayOutcome{Results: map[int]string{}, Failed: map[int][]string{}}
+	cmd := exec.Command("go", "build", ".")
+	cmd.Dir = repoDir
+	cmd.Env = goEnv("GOOS="+br.GOOS, "GOARCH="+br.GOARCH)
+	b, err := cmd.CombinedOutput()
+	out.Output = string(b)
+	if err != nil {
+		out.Results[0] = "build-failed"
+		out.Err = err.Error()
+	} else {
+		out.Results[0] = "pass"
+	}
+	os.WriteFile(filepath.Join(dir, "output.txt"), b, 0o644)
+	return out
 }
 
 func harnessNames(P *Program, pkgShort string) []string {
@@ -174,7 +213,7 @@ func harnessNames(P *Program, pkgShort string) []string {
 	return names
 }
 
-func harnessNamesFromSource(pkgShort string) []string {
+func harnessNamesFromSource(pkgShort string, js bool) []string {
 	dir := filepath.Join(verifDir, "harness", pkgShort)
 	ents, _ := os.ReadDir(dir)
 	re := regexp.MustCompile(`(?m)^func (H\d\d_\w+)\(\)`)
@@ -184,6 +223,16 @@ func harnessNamesFromSource(pkgShort string) []string {
 			continue
 		}
 		b, _ := os.ReadFile(filepath.Join(dir, e.Name()))
+		first := string(b)
+		if i := strings.Index(first, "\n"); i >= 0 {
+			first = first[:i]
+		}
+		if strings.Contains(first, "!js") && js {
+			continue
+		}
+		if strings.Contains(first, "&& js") && !js {
+			continue
+		}
 		for _, m := range re.FindAllStringSubmatch(string(b), -1) {
 			names = append(names, m[1])
 		}
@@ -211,7 +260,8 @@ func writeReplay(prop string, pkgShort string, cases []ReplayCase, tag string) (
 	var tb strings.Builder
 	fmt.Fprintf(&tb, "//go:build verif\n\npackage %s\n\nimport \"testing\"\n\n", pkgShort)
 	fmt.Fprintf(&tb, "var vsymHarnesses = map[string]func(){\n")
-	for _, n := range harnessNamesFromSource(pkgShort) {
+	isJSReplay := len(cases) > 0 && cases[0].GOOS == "js"
+	for _, n := range harnessNamesFromSource(pkgShort, isJSReplay) {
 		fmt.Fprintf(&tb, "\t%q: %s,\n", n, n)
 	}
 	fmt.Fprintf(&tb, "}\n\nfunc TestZZReplay(t *testing.T) {\n\tfor i, c := range vsymLoadCases() {\n\t\tfn := vsymHarnesses[c.Harness]\n\t\tif fn == nil {\n\t\t\tt.Fatalf(\"unknown harness %%s\", c.Harness)\n\t\t}\n\t\tvsymRunCase(i, c, fn)\n\t}\n}\n")
@@ -278,6 +328,9 @@ func runReplay(dir string) *ReplayOutcome {
 		out.Err = err.Error()
 		return out
 	}
+	if rf.Build != nil {
+		return runBuildReplay(dir, rf.Build)
+	}
 	pkgShort := "tcell"
 	if len(rf.Cases) > 0 && rf.Cases[0].Pkg != "" {
 		pkgShort = rf.Cases[0].Pkg
@@ -288,10 +341,26 @@ func runReplay(dir string) *ReplayOutcome {
 		pkgArg = "./" + rdir
 	}
 	// the overlay must reflect the current harness files (paths are absolute and stable)
-	cmd := exec.Command("go", "test", "-tags", "verif", "-vet=off", "-count=1", "-timeout", "300s",
-		"-overlay", filepath.Join(dir, "overlay.json"), "-run", "^TestZZReplay$", "-v", pkgArg)
+	args := []string{"test", "-tags", "verif", "-vet=off", "-count=1", "-timeout", "300s",
+		"-overlay", filepath.Join(dir, "overlay.json"), "-run", "^TestZZReplay$", "-v"}
+	for _, c := range rf.Cases {
+		if c.Kind == "race" {
+			args = append(args, "-race")
+			break
+		}
+	}
+	isJS := len(rf.Cases) > 0 && rf.Cases[0].GOOS == "js"
+	if isJS {
+		goroot, _ := exec.Command("go", "env", "GOROOT").Output()
+		args = append(args, "-exec", filepath.Join(strings.TrimSpace(string(goroot)), "misc", "wasm", "go_js_wasm_exec"))
+	}
+	args = append(args, pkgArg)
+	cmd := exec.Command("go", args...)
 	cmd.Dir = repoDir
 	env := goEnv("VSYM_INPUTS="+filepath.Join(dir, "inputs.json"), "TERM=xterm")
+	if isJS {
+		env = append(env, "GOOS=js", "GOARCH=wasm")
+	}
 	var clean []string
 	for _, e := range env {
 		if strings.HasPrefix(e, "COLORTERM=") || strings.HasPrefix(e, "TCELL_") || strings.HasPrefix(e, "LC_") ||
@@ -345,6 +414,9 @@ func cmdReplay(args []string) int {
 			bad = true
 		}
 	}
+	if o.Results[0] == "build-failed" {
+		return 1
+	}
 	if len(o.Results) == 0 {
 		fmt.Println("no replay result (build failure?):", o.Err)
 		return 2
@@ -360,7 +432,7 @@ func toReplayCase(spec *HarnessSpec, params map[string]int, inputs map[string]ui
 	for k, v := range inputs {
 		in[k] = strconv.FormatUint(v, 10)
 	}
-	return ReplayCase{Harness: spec.Name, Inputs: in, Params: params, Pkg: spec.Pkg, Expect: expect, Kind: kind}
+	return ReplayCase{Harness: spec.Name, Inputs: in, Params: params, Pkg: spec.Pkg, Expect: expect, Kind: kind, GOOS: spec.GOOS}
 }
 
 // ------------------------------------------------------------------ the check driver
@@ -380,6 +452,8 @@ func runProperty(prop *PropSpec, tier string, seed int, verbose int, only string
 	id := prop.ID
 	exit := 0
 	var inconAll []string
+	lockLocations := 0
+	buildViolations := 0
 	// group harnesses by platform
 	byOS := map[string][]*HarnessSpec{}
 	for i := range prop.Harnesses {
@@ -410,6 +484,19 @@ func runProperty(prop *PropSpec, tier string, seed int, verbose int, only string
 		loadSecs += lr.LoadSecs
 		if len(lr.Errors) > 0 {
 			fmt.Fprintf(os.Stderr, "type errors loading /repo (GOOS=%q):\n%s\n", goos, strings.Join(lr.Errors, "\n"))
+			if goos != "" && prop.BuildIsProperty {
+				// "the backend compiles against the common interface" is part of the property:
+				// confirm with the real compiler, then report
+				dir, werr := writeBuildReplay(id, goos, arch, lr.Errors)
+				if werr == nil {
+					if o := runBuildReplay(dir, &BuildReplay{goos, arch}); o.Results[0] == "build-failed" {
+						buildViolations++
+						fmt.Printf("VIOLATION property=%s replay=%s\n  GOOS=%s GOARCH=%s does not build: %s\n", id, dir, goos, arch, lr.Errors[0])
+						exit = 1
+						continue
+					}
+				}
+			}
 			inconAll = append(inconAll, "load errors for GOOS="+goos+": "+lr.Errors[0])
 			continue
 		}
@@ -573,6 +660,117 @@ func runProperty(prop *PropSpec, tier string, seed int, verbose int, only string
 		}
 	}
 
+	// lock discipline (C10): locations written after Init and accessed without the screen lock
+	if prop.LockSet != "" {
+		acc := map[string]*AccessSummary{}
+		var lockJob Job
+		for i, r := range allResults {
+			if r == nil || len(r.Access) == 0 {
+				continue
+			}
+			lockJob = allJobs[i]
+			for k, a := range r.Access {
+				if t := acc[k]; t == nil {
+					cp := *a
+					cp.Threads, cp.Sites, cp.UnlockedAt, cp.Writers = map[string]bool{}, map[string]bool{}, map[string]bool{}, map[string]bool{}
+					mergeAccessSummary(&cp, a)
+					cp.Reads, cp.Writes, cp.Unlocked, cp.UnlockedW = a.Reads, a.Writes, a.Unlocked, a.UnlockedW
+					acc[k] = &cp
+				} else {
+					mergeAccessSummary(t, a)
+				}
+			}
+		}
+		lockLocations = len(acc)
+		idxOf := func(s string) (int, string) {
+			// "12:Beep (writeString)"
+			n := 0
+			i := 0
+			for i < len(s) && s[i] >= '0' && s[i] <= '9' {
+				n = n*10 + int(s[i]-'0')
+				i++
+			}
+			name := s
+			if i < len(s) && s[i] == ':' {
+				name = s[i+1:]
+			}
+			if j := strings.Index(name, " ("); j >= 0 {
+				name = name[:j]
+			}
+			return n, name
+		}
+		var locs []string
+		for k := range acc {
+			locs = append(locs, k)
+		}
+		sort.Strings(locs)
+		type cand struct {
+			ui, wi int
+			wn     string
+			locs   []string
+		}
+		cands := map[string]*cand{}
+		for _, loc := range locs {
+			a := acc[loc]
+			if a.Writes == 0 || a.Unlocked == 0 {
+				continue
+			}
+			var ws, us []string
+			for w := range a.Writers {
+				ws = append(ws, w)
+			}
+			for u := range a.UnlockedAt {
+				us = append(us, u)
+			}
+			sort.Strings(ws)
+			sort.Strings(us)
+			for _, u := range us {
+				ui, un := idxOf(u)
+				wi, wn := idxOf(ws[0])
+				for _, w := range ws { // prefer a writer that is a different method
+					if i2, n2 := idxOf(w); n2 != un {
+						wi, wn = i2, n2
+						break
+					}
+				}
+				c := cands[un]
+				if c == nil {
+					c = &cand{ui: ui, wi: wi, wn: wn}
+					cands[un] = c
+				}
+				dup := false
+				for _, l := range c.locs {
+					if l == loc {
+						dup = true
+					}
+				}
+				if !dup {
+					c.locs = append(c.locs, loc)
+				}
+			}
+		}
+		var uns []string
+		for un := range cands {
+			uns = append(uns, un)
+		}
+		sort.Strings(uns)
+		for _, un := range uns {
+			c := cands[un]
+			v := &Violation{Harness: prop.LockSet, Kind: "race",
+				Msg:     fmt.Sprintf("%s accesses shared screen state without the screen lock", un),
+				Inputs:  map[string]uint64{},
+				Notes:   []Note{{"unlocked method", un}},
+				Choices: []string{fmt.Sprintf("state: %s", strings.Join(c.locs, ",")), fmt.Sprintf("racing writer: %s", c.wn)}}
+			viols = append(viols, v)
+			rj := lockJob
+			sp := *lockJob.Spec
+			sp.Name = prop.LockSet
+			rj.Spec = &sp
+			rj.Params = map[string]int{"a": c.wi, "b": c.ui}
+			violJob[v] = rj
+		}
+	}
+
 	// vacuity: every harness must have at least one path reaching an assertion or ending "done"
 	for _, r := range allResults {
 		if r == nil {
@@ -657,7 +855,9 @@ func runProperty(prop *PropSpec, tier string, seed int, verbose int, only string
 			case "panic":
 				ok = res == "panic"
 			case "blocked":
-				ok = res == "hang"
+				ok = res == "hang" || strings.Contains(o.Output, "all goroutines are asleep - deadlock")
+			case "race":
+				ok = strings.Contains(o.Output, "WARNING: DATA RACE")
 			}
 			if !ok {
 				notReproduced++
@@ -775,12 +975,13 @@ func runProperty(prop *PropSpec, tier string, seed int, verbose int, only string
 		"counterexamples_replayed_reproduced": reproduced,
 		"counterexamples_not_reproduced":      notReproduced,
 		"known_findings_reported": len(knownReported),
+		"lockset_locations_tracked": lockLocations,
 		"inconclusive":            inconAll,
 		"load_seconds":            round3(loadSecs),
 	}
 	_ = Pmain
 	ev := Evidence{PropertyID: id, Tier: tier, Seed: seed, Level: "model_checking", Coverage: cov,
-		Assumptions: prop.Assumptions, WallS: round3(time.Since(t0).Seconds()), Violations: violationsReported}
+		Assumptions: prop.Assumptions, WallS: round3(time.Since(t0).Seconds()), Violations: violationsReported + buildViolations}
 	eb, _ := json.MarshalIndent(ev, "", " ")
 	os.MkdirAll(filepath.Join(verifDir, "evidence"), 0o755)
 	if err := os.WriteFile(filepath.Join(verifDir, "evidence", id+".json"), eb, 0o644); err != nil {
